@@ -6,8 +6,8 @@ VARIABLE c
 Wheres == { "W - | o | x | ~ | < | >", "W o | -" }
 Dims == { a \in GroupAtoms : a[2] # "" }
 GLists == { <<>> } \cup Lists(Dims, IF Deep THEN 2 ELSE 1)
-          \cup { l \in [1..2 -> Dims] : l[1][2] \in {"FILE", "PROJECT", "NOTE_TYPE"} }
-          \cup { l \in [1..3 -> Dims] : l[1][2] = "FILE" /\ l[2][2] \in {"NOTE_TYPE", "CONTEXT"} /\ l[3][2] \in {"PRIORITY", "PROJECT", "SECTION"} }
+          \cup { l \in [1..2 -> Dims] : l[1][2] \in {"FILE", "PROJECT", "NOTE_TYPE", "SECTION"} }
+          \cup { l \in [1..3 -> Dims] : l[1][2] \in {"FILE", "SECTION"} /\ l[2][2] \in {"NOTE_TYPE", "CONTEXT", "SECTION"} /\ l[3][2] \in {"PRIORITY", "PROJECT", "SECTION"} }
           \cup { l \in [1..4 -> Dims] : l[1][2] = "PERSON" /\ l[2][2] = "FILE" /\ l[3][2] \in {"NOTE_TYPE", "AREA"} /\ l[4][2] \in {"PRIORITY", "CONTEXT"} }
 OLists == Lists(OrderAtoms, IF Deep THEN 2 ELSE 1) \cup { l \in [1..2 -> OrderAtoms] : l[1][2] \in {"NOTE_TYPE", "PRIORITY"} }
 Sels == { s \in Selects : Deep \/ s[1] \in {"note", "+", "@", "prop", "prop:due", "links", "file", "count(note)", "count(+)", "count(prop:due)", "count(file)"} }
